@@ -10,33 +10,8 @@ use verif_harness::*;
 
 const KEYS: [&str; 10] = ["href", "protocol", "username", "password", "host", "hostname", "port", "pathname", "search", "hash"];
 
-/// host parser / serializer of the Standard, answered from the real crate
 fn spec_oracle(name: &str, arg: &str) -> String {
-    match name {
-        "shp" => {
-            let (o, l) = arg.split_once(',').expect("shp argument");
-            let s = unhexs(l);
-            let opaque = o == "1";
-            let r = std::panic::catch_unwind(|| if opaque { Host::parse_opaque(&s) } else { Host::parse(&s) });
-            match r {
-                Ok(Ok(Host::Domain(d))) => {
-                    if opaque {
-                        if d.is_empty() { "e".to_string() } else { format!("o{}", hexs(&d)) }
-                    } else if d.is_empty() {
-                        "f".to_string()
-                    } else {
-                        format!("d{}", hexs(&d))
-                    }
-                }
-                Ok(Ok(Host::Ipv4(a))) => format!("4{:x}", u32::from(a)),
-                Ok(Ok(Host::Ipv6(a))) => format!("6{}", hexl(a.segments().iter().map(|&s| s as u32))),
-                Ok(Err(_)) => "f".to_string(),
-                Err(_) => "f".to_string(),
-            }
-        }
-        "shs" => hexs(&host_from_token(arg).to_string()),
-        _ => panic!("unknown oracle {}", name),
-    }
+    verif_harness::specapi::spec_oracle(name, arg)
 }
 
 /// driver answer -> Err(kind) or the ten API strings
